@@ -293,6 +293,12 @@ def drive(logic, t, i):
         pass
     try:
         L.LNot(f)
+        if i % 3 == 0:
+            # chains of leading negations: LNot must strip them in pairs
+            g = f
+            for k in range(1 + i % 5):
+                g = L.Not(g)
+                L.LNot(g)
     except Exception:
         pass
     if i % 811 == 0:
